@@ -185,7 +185,7 @@ Definition alt_sat (answer : str -> auth_answer) (a : alt) : bool :=
 Definition sat (answer : str -> auth_answer) (r : requirement) : bool := existsb (alt_sat answer) r.
 
 (* ================= C03: binding an array parameter (one level; server/parameter.gotmpl sliceparambinder) ================= *)
-Record aparam := { ap_required : bool; ap_multi : bool; ap_sep : N; ap_elem : ptype;
+Record aparam := { ap_required : bool; ap_allow_empty : bool; ap_multi : bool; ap_sep : N; ap_elem : ptype;
                    ap_minitems : option Z; ap_maxitems : option Z; ap_unique : bool }.
 Inductive aoutcome := AReject | AAbsent | ABound (vs : list value).
 
@@ -218,10 +218,13 @@ Definition count_ok (p : aparam) (vs : list value) : bool :=
   match ap_minitems p with Some a => Z.leb a (Z.of_nat (length vs)) | None => true end &&
   match ap_maxitems p with Some b => Z.leb (Z.of_nat (length vs)) b | None => true end.
 
+(* an empty list of items is refused when the parameter is required, unless allowEmptyValue says otherwise *)
+Definition must_have (p : aparam) : bool := ap_required p && negb (ap_allow_empty p).
+
 Definition bind_array (p : aparam) (rd : list str) (has_key : bool) : aoutcome :=
   if ap_required p && negb has_key then AReject
   else match items_of p rd with
-       | [] => if ap_required p then AReject else AAbsent
+       | [] => if must_have p then AReject else AAbsent
        | items =>
            match conv_items (ap_elem p) items with
            | None => AReject
@@ -232,7 +235,7 @@ Definition bind_array (p : aparam) (rd : list str) (has_key : bool) : aoutcome :
 (* the array semantics, stated without the ladder *)
 Definition areq_ok (p : aparam) (rd : list str) (has_key : bool) : Prop :=
   (ap_required p = true -> has_key = true) /\
-  (items_of p rd = [] -> ap_required p = false) /\
+  (items_of p rd = [] -> must_have p = false) /\
   (items_of p rd <> [] ->
      exists vs, Forall2 (fun raw v => convert (ap_elem p) raw = Some v /\ valid_value (ap_elem p) v = true) (items_of p rd) vs /\
                 count_ok p vs = true /\ (ap_unique p = true -> distinct_values vs = true)).
